@@ -115,7 +115,7 @@ func ruleExporter13Construction(c *Ctx, r *Report) {
 	r.Floor(rule, n, 1)
 }
 
-var chachaSeqRe = regexp.MustCompile(`^\S*Epoch\[1\.\.0\] \S*SequenceNumber\[5\.\.0\]$`)
+var chachaSeqRe = regexp.MustCompile(`(?i)^\S*epoch\[1\.\.0\] \S*sequence(number)?\[5\.\.0\]$`)
 
 // ruleChaChaNonce12 (C10): the nonce of a DTLS 1.2 ChaCha20-Poly1305 record is the 12-byte write IV
 // XOR the 64-bit record number (epoch 2 || sequence 6, big-endian) padded on the LEFT with four
@@ -224,6 +224,15 @@ func ruleChaChaNonce12(c *Ctx, r *Report) {
 								seqShape(sh.X)
 							}
 						}
+						if !okShift && iv != nil {
+							// or: byte i of an 8-byte buffer that holds the number big-endian
+							for _, side := range []ssa.Value{bo.X, bo.Y} {
+								if num := bigEndianBufferByte(stripConv(side), iv, x); num != nil {
+									okShift = true
+									seqShape(num)
+								}
+							}
+						}
 						if !okShift {
 							problems = append(problems, "the byte XORed in at "+c.ipos(x)+" is not byte(number >> (56 - 8*i)) for the same i (big-endian, most significant byte first)")
 						}
@@ -260,6 +269,82 @@ func ruleChaChaNonce12(c *Ctx, r *Report) {
 	r.Floor(rule, n, 2)
 }
 
+// bigEndianBufferByte: v is element idx of a local [8]byte that was filled, before use, by one
+// binary.BigEndian.PutUint64(buf[:], number) and is written nowhere else; returns number.
+func bigEndianBufferByte(v, idx ssa.Value, use ssa.Instruction) ssa.Value {
+	var buf *ssa.Alloc
+	var whole *ssa.UnOp
+	switch x := v.(type) {
+	case *ssa.UnOp: // buf[i] through its address
+		if ia, ok := x.X.(*ssa.IndexAddr); ok && stripConv(ia.Index) == idx {
+			buf, _ = ia.X.(*ssa.Alloc)
+		}
+	case *ssa.Index: // element of a copy of the array (range over the array value)
+		if ld, ok := x.X.(*ssa.UnOp); ok && stripConv(x.Index) == idx {
+			buf, _ = ld.X.(*ssa.Alloc)
+			whole = ld
+		}
+	}
+	if buf == nil {
+		return nil
+	}
+	arr, ok := derefType(buf.Type()).Underlying().(*types.Array)
+	if !ok || arr.Len() != 8 {
+		return nil
+	}
+	var put *ssa.Call
+	for _, ref := range *buf.Referrers() {
+		switch y := ref.(type) {
+		case *ssa.Slice:
+			if y.Low != nil {
+				if k, isK := constInt(y.Low); !isK || k != 0 {
+					return nil
+				}
+			}
+			for _, r2 := range *y.Referrers() {
+				call, isCall := r2.(*ssa.Call)
+				if !isCall || calleeName(&call.Call) != "(encoding/binary.bigEndian).PutUint64" || call.Call.Args[1] != ssa.Value(y) || put != nil {
+					return nil
+				}
+				put = call
+			}
+		case *ssa.IndexAddr:
+			for _, r2 := range *y.Referrers() {
+				if st, isSt := r2.(*ssa.Store); isSt && st.Addr == ssa.Value(y) {
+					return nil
+				}
+				if _, isLd := r2.(*ssa.UnOp); !isLd {
+					if _, isDbg := r2.(*ssa.DebugRef); !isDbg {
+						return nil
+					}
+				}
+			}
+		case *ssa.UnOp, *ssa.DebugRef:
+		case *ssa.Store:
+			// zero initialisation only
+			if y.Addr != ssa.Value(buf) {
+				return nil
+			}
+			if k, isK := y.Val.(*ssa.Const); !isK || k.Value != nil {
+				return nil
+			}
+		default:
+			return nil
+		}
+	}
+	if put == nil {
+		return nil
+	}
+	at := use
+	if whole != nil {
+		at = whole
+	}
+	if !instrDominates(put, at) {
+		return nil
+	}
+	return put.Call.Args[2]
+}
+
 // ruleClientAuthPolicy13 (C03): the DTLS 1.3 server validates a presented client certificate chain
 // under both verifying policies. In the function that judges the peer's identity, on the branch
 // for a client peer, for ClientAuth = VerifyClientCertIfGiven and = RequireAndVerifyClientCert: no
@@ -279,7 +364,11 @@ func ruleClientAuthPolicy13(c *Ctx, r *Report) {
 			peerIsClient = p
 		}
 	}
-	verifiers := findCalls(fn, nameHasSuffix("handshakecrypto.VerifyClientCert"))
+	// the judgement may be cut into helpers of the package (one per role, say): they are followed
+	var verifiers []*ssa.Call
+	for _, u := range c.unitFuncs(fn) {
+		verifiers = append(verifiers, findCalls(u, nameHasSuffix("handshakecrypto.VerifyClientCert"))...)
+	}
 	if peerIsClient == nil || len(pol) == 0 {
 		r.Unk(rule, short(fn), c.pos(fn.Pos()), "the role parameter or the policy constants were not found")
 		return
@@ -313,7 +402,7 @@ func ruleClientAuthPolicy13(c *Ctx, r *Report) {
 			return ""
 		}
 		// (a) without the verifier
-		w := &Walk{Fn: fn, Assume: assumeAll(base...)}
+		w := &Walk{Fn: fn, Follow: followSamePkg(fn), Assume: assumeAll(base...)}
 		w.Visit = func(in ssa.Instruction, _ Env) bool { return !isVerifier[in] }
 		w.FromEntry()
 		without := succeeds(w)
@@ -321,7 +410,17 @@ func ruleClientAuthPolicy13(c *Ctx, r *Report) {
 		failed := ""
 		for _, v := range verifiers {
 			as := append(append([]atomAssume{}, base...), atomAssume{mValue(resultValue(v, 1)), vNil(false)})
-			w2 := (&Walk{Fn: fn, Assume: assumeAll(as...)}).After(v)
+			var w2 *Walk
+			if v.Parent() == fn {
+				w2 = (&Walk{Fn: fn, Follow: followSamePkg(fn), Assume: assumeAll(as...)}).After(v)
+			} else {
+				// the verifier sits in a helper: the whole judgement with its failure assumed
+				// (the ways round it are what (a) reports)
+				w2 = (&Walk{Fn: fn, Follow: followSamePkg(fn), Assume: assumeAll(as...)}).FromEntry()
+				if !w2.Reached[v] {
+					failed = "the verifier is not reached"
+				}
+			}
 			if s := succeeds(w2); s != "" {
 				failed = s
 			}
